@@ -502,8 +502,14 @@ class NetworkMixin(RadioMixin):
         if send_type == TX_ROUTED and write_direct == to_node and is_ack_t:
             time.sleep(0.002)
 
+        # a routed message's last hop answers with a NETWORK_ACK. This includes every
+        # fragment of a fragmented message (fragments are sent as acknowledged types)
+        await_ack = to_node != write_direct and send_type in (TX_NORMAL, TX_LOGICAL)
+        if await_ack and len(self.frame_buf.message) > MAX_FRAG_SIZE:
+            is_ack_t = True
+
         # send the frame
-        result = self._write_to_pipe(to_node, to_pipe, is_multicast)
+        result = self._write_to_pipe(to_node, to_pipe, is_multicast, await_ack)
         # print("Failed to send" if not result else "Successfully sent")
 
         if result and is_ack_t:  # does NETWORK_ACK need to be handled?
@@ -529,20 +535,8 @@ class NetworkMixin(RadioMixin):
                 # )
 
             # conditionally wait for NETWORK_ACK message
-            elif to_node != write_direct and send_type in (TX_NORMAL, TX_LOGICAL):
-                self._rf24.listen = True
-                self._rf24.auto_ack = 0x3E
-                rx_timeout = self.route_timeout * 1000000 + time.monotonic_ns()
-                while self._net_update() != NETWORK_ACK:
-                    if time.monotonic_ns() > rx_timeout:
-                        result = False
-                        break
-                # print(
-                #     "Network ACK {}received from {}".format(
-                #         "" if result else "not ", oct(to_node)
-                #     ),
-                # )
-                return result
+            elif await_ack:
+                return self._wait_for_network_ack()
 
         # ready radio to continue listening
         self._rf24.listen = True
@@ -550,7 +544,20 @@ class NetworkMixin(RadioMixin):
             self._rf24.auto_ack = 0x3E
         return result
 
-    def _write_to_pipe(self, to_node: int, to_pipe: int, is_multicast: bool) -> bool:
+    def _wait_for_network_ack(self) -> bool:
+        """listen (up to `route_timeout`) for the NETWORK_ACK of a routed frame"""
+        self._rf24.listen = True
+        self._rf24.auto_ack = 0x3E
+        rx_timeout = self.route_timeout * 1000000 + time.monotonic_ns()
+        while self._net_update() != NETWORK_ACK:
+            if time.monotonic_ns() > rx_timeout:
+                return False
+        # print("Network ACK received")
+        return True
+
+    def _write_to_pipe(
+        self, to_node: int, to_pipe: int, is_multicast: bool, await_ack: bool = False
+    ) -> bool:
         """send prepared frame to a particular node's pipe"""
         result: Union[bool, bytearray, List[Union[bool, bytearray]]] = False
         if to_node == self._addr and not is_multicast:
@@ -597,6 +604,20 @@ class NetworkMixin(RadioMixin):
                 # )
                 if not result:
                     break
+                if await_ack and count < total - 1:
+                    # like RF24Network, wait for this fragment's NETWORK_ACK before sending
+                    # the next one (the caller awaits the last one's). Anything received
+                    # in the meantime passes through frame_buf
+                    header = self.frame_buf.header.pack()
+                    message = self.frame_buf.message
+                    result = self._wait_for_network_ack()
+                    self.frame_buf.header.unpack(header)
+                    self.frame_buf.message = message
+                    if not result:
+                        break
+                    self._rf24.auto_ack = 0x3F
+                    self.listen = False
+                    self._rf24.open_tx_pipe(self._pipe_address(to_node, to_pipe))
             self.frame_buf.header.message_type = msg_t
         return result  # type: ignore
 
